@@ -2615,6 +2615,10 @@ int32 parseCertificateRequest(ssl_t *ssl,
             {
                 psFree(keySelect->caNames, ssl->hsPool);
                 psFree(keySelect->caNameLens, ssl->hsPool);
+                /* The lists are released again when the session goes. */
+                keySelect->caNames = NULL;
+                keySelect->caNameLens = NULL;
+                keySelect->nCas = 0;
                 ssl->err = SSL_ALERT_INTERNAL_ERROR;
                 return MATRIXSSL_ERROR;
             }
